@@ -28,7 +28,7 @@ def props():
 def one(args):
     rid, plist = args
     d = os.path.join(VERIF, 'benign', rid)
-    wt = '/tmp/benignrun/%s' % rid
+    wt = '/tmp/benignrun/%s-%d' % (rid, os.getpid())
     sh('git -C /repo worktree remove --force %s' % wt)
     sh('git -C /repo worktree add --detach %s HEAD' % wt)
     res = {}
